@@ -22,7 +22,7 @@ if [ "$cmd" = confirm ]; then
   echo "$ID (iii) mutation only: $r3"
   cp $K/* $W/ ; rm -rf $K
 elif [ "$cmd" = run ]; then
-  D=$2; P=$3; T=${4:-quick}
+  D=$(realpath $2); P=$3; T=${4:-quick}
   cd /verif
   [ -n "$(git -C /repo status --porcelain --untracked-files=no)" ] && { echo "/repo not clean"; exit 2; }
   git -C /repo apply $D/patch.diff 2>/dev/null || git -C /repo apply $D/mutation.diff || { echo "patch does not apply"; exit 2; }
